@@ -569,6 +569,13 @@ func (e *Enc) havocForCall(mod KeySet, at ssa.Instruction, args []Val) {
 		if parts[0] == "E" {
 			e.privateSliceFrame(k, old, nw, nil)
 		}
+		if parts[0] == "MH" || parts[0] == "MV" {
+			for _, ma := range e.mapAllocs {
+				if (mapHasKey(ma.key) == k || mapValKey(ma.key) == k) && ma.block.Dominates(at.Block()) && !e.mapEscapedBefore(ma.val, at) {
+					e.assert(Eq(Select(nw, ma.ref), Select(old, ma.ref)))
+				}
+			}
+		}
 		for _, a := range unesc {
 			switch parts[0] {
 			case "F":
@@ -705,6 +712,48 @@ func (e *Enc) unescapedAllocs(at ssa.Instruction) []allocRec {
 		}
 	}
 	return out
+}
+
+// mapEscapedBefore: can a use that hands the map out (anything but updating, reading, ranging, len, delete)
+// have executed before, or be, the instruction `at`?
+func (e *Enc) mapEscapedBefore(m *ssa.MakeMap, at ssa.Instruction) bool {
+	refs := m.Referrers()
+	if refs == nil {
+		return false
+	}
+	atBlock := at.Block()
+	for _, r := range *refs {
+		switch x := r.(type) {
+		case *ssa.DebugRef:
+			continue
+		case *ssa.MapUpdate:
+			if x.Map == m && x.Key != ssa.Value(m) && x.Value != ssa.Value(m) {
+				continue
+			}
+		case *ssa.Lookup:
+			if x.X == m && x.Index != ssa.Value(m) {
+				continue
+			}
+		case *ssa.Range:
+			continue
+		case *ssa.Call:
+			if b, ok := x.Call.Value.(*ssa.Builtin); ok && (b.Name() == "len" || b.Name() == "delete") {
+				continue
+			}
+		}
+		rb := r.Block()
+		if rb == nil {
+			return true
+		}
+		if rb == atBlock {
+			if instrIndex(rb, r) <= instrIndex(rb, at) || e.reachBlocks[rb][rb] {
+				return true
+			}
+		} else if e.reachBlocks[rb][atBlock] {
+			return true
+		}
+	}
+	return false
 }
 
 func instrIndex(b *ssa.BasicBlock, in ssa.Instruction) int {
@@ -2262,6 +2311,11 @@ func (e *Enc) externMutationObligation(name string, fn *ssa.Function, recv Val, 
 		}
 	}
 	if fa == nil {
+		// a receiver taken from package-level state or out of a shared library container (sync.Pool, sync.Map)
+		// is neither fresh nor per-execution memory
+		if origin := e.sharedOrigin(recvVal, 0); origin != "" {
+			e.oblige("frame", "extern-mutation/"+name, pos, False, []string{"C04", "C05"}, "receiver of mutating library method "+name+" comes from "+origin+": shared between executions")
+		}
 		return
 	}
 	st := derefType(fa.X.Type())
@@ -2277,6 +2331,52 @@ func (e *Enc) externMutationObligation(name string, fn *ssa.Function, recv Val, 
 		goalFresh = Or(goalFresh, Ge(Birth(loaded), e.now0), App(SBool, "perexec", loaded))
 	}
 	e.oblige("frame", "extern-mutation/"+name, pos, goalFresh, []string{"C04", "C05"}, "receiver of mutating library method "+name+" lives in a compiled node: it must be fresh or per-execution memory")
+}
+
+// sharedOrigin: does the value come from a package-level variable or out of a shared library container?
+func (e *Enc) sharedOrigin(v ssa.Value, depth int) string {
+	if depth > 8 || v == nil {
+		return ""
+	}
+	switch x := v.(type) {
+	case *ssa.Global:
+		if x.Pkg == e.p.SSAPkg {
+			return "the package-level variable " + x.Name()
+		}
+		return ""
+	case *ssa.UnOp:
+		return e.sharedOrigin(x.X, depth+1)
+	case *ssa.FieldAddr:
+		return e.sharedOrigin(x.X, depth+1)
+	case *ssa.IndexAddr:
+		return e.sharedOrigin(x.X, depth+1)
+	case *ssa.TypeAssert:
+		return e.sharedOrigin(x.X, depth+1)
+	case *ssa.ChangeType:
+		return e.sharedOrigin(x.X, depth+1)
+	case *ssa.ChangeInterface:
+		return e.sharedOrigin(x.X, depth+1)
+	case *ssa.Extract:
+		return e.sharedOrigin(x.Tuple, depth+1)
+	case *ssa.Phi:
+		for _, ed := range x.Edges {
+			if o := e.sharedOrigin(ed, depth+1); o != "" {
+				return o
+			}
+		}
+		return ""
+	case *ssa.Call:
+		if sc := x.Call.StaticCallee(); sc != nil && sc.Signature.Recv() != nil {
+			rt := sc.Signature.Recv().Type()
+			if pt, ok := rt.(*types.Pointer); ok {
+				rt = pt.Elem()
+			}
+			if n, ok := rt.(*types.Named); ok && n.Obj().Pkg() != nil && n.Obj().Pkg().Path() == "sync" && (n.Obj().Name() == "Pool" || n.Obj().Name() == "Map") {
+				return "a sync." + n.Obj().Name() + " (" + sc.Name() + ")"
+			}
+		}
+	}
+	return ""
 }
 
 // ---- termination of loops (C01): explicit `decreases` clauses, or inferred linear measures ----
